@@ -2,6 +2,7 @@ package types
 
 import (
 	"bytes"
+	"fmt"
 	"grits/position"
 	"reflect"
 
@@ -470,15 +471,11 @@ func innerEqualType(type1, type2 SessionType, snapshots map[string]bool, labelle
 	}
 
 	if isLabel1 || isLabel2 {
-		// Compare with existing snapshots
-		var presentSnapshot bytes.Buffer
-		presentSnapshot.WriteString(type1.String())
-		presentSnapshot.WriteString(type1.Modality().String())
-		presentSnapshot.WriteString("|")
-		presentSnapshot.WriteString(type2.String())
-		presentSnapshot.WriteString(type2.Modality().String())
+		// Compare with existing snapshots. A snapshot identifies the pair of types being compared
+		// (before unfolding): if the same pair is reached again, then a cycle is closed
+		presentSnapshot := snapshotKey(type1) + "|" + snapshotKey(type2)
 
-		_, exists := snapshots[presentSnapshot.String()]
+		_, exists := snapshots[presentSnapshot]
 		if exists {
 			return true
 		}
@@ -507,14 +504,8 @@ func innerEqualType(type1, type2 SessionType, snapshots map[string]bool, labelle
 			}
 		}
 
-		// Add new snapshot
-		var newSnapshot bytes.Buffer
-		newSnapshot.WriteString(type1.String())
-		newSnapshot.WriteString(type1.Modality().String())
-		newSnapshot.WriteString("|")
-		newSnapshot.WriteString(type2.String())
-		newSnapshot.WriteString(type2.Modality().String())
-		snapshots[newSnapshot.String()] = true
+		// Remember the pair that has just been unfolded
+		snapshots[presentSnapshot] = true
 
 		return innerEqualType(type1, type2, snapshots, labelledTypesEnv)
 	}
@@ -587,6 +578,16 @@ func innerEqualType(type1, type2 SessionType, snapshots map[string]bool, labelle
 
 	// fmt.Printf("issue in EqualType for type %s\n", a)
 	return false
+}
+
+// Identifies a type within a snapshot: a label by its name and mode, any other type by its
+// node (the printed form of a type does not identify it, e.g. '(1 * 1) * 1' and '1 * (1 * 1)')
+func snapshotKey(t SessionType) string {
+	if label, isLabel := t.(*LabelType); isLabel {
+		return "label:" + label.Label + ":" + label.Mode.String()
+	}
+
+	return fmt.Sprintf("node:%p", t)
 }
 
 // Compare branches in an unordered way. Here we are assuming that both branches contain unique labels
